@@ -618,3 +618,128 @@ Theorem mailbox_no_lost_wakeup_gen cfg drives source killer nfut sched st :
 Proof.
   intros Hrun. eapply run_invariant; [| |exact Hrun]; [intros; eapply W_step; eauto|apply W_init].
 Qed.
+
+(* ---------- what a step leaves alone ---------- *)
+Definition frame (st st' : state) : Prop :=
+  k_pc st' = k_pc st /\ map r_drive (rds st') = map r_drive (rds st) /\ w_done st' = w_done st /\
+  killed st' = killed st.
+
+Lemma frame_refl st : frame st st. Proof. repeat split. Qed.
+Lemma frame_trans a b c : frame a b -> frame b c -> frame a c.
+Proof. intros (A1 & A2 & A3 & A4) (B1 & B2 & B3 & B4). repeat split; congruence. Qed.
+
+Lemma map_drive_woken l w : map r_drive (map (fun r => rd_set_woken r w) l) = map r_drive l.
+Proof. rewrite map_map. reflexivity. Qed.
+
+Lemma frame_wake_readers st : frame st (wake_readers st).
+Proof. unfold wake_readers. repeat split. simp_st. apply map_drive_woken. Qed.
+Lemma frame_wake_writer st : frame st (wake_writer st).
+Proof. unfold wake_writer. destruct (s_pc st); repeat split. Qed.
+Lemma frame_wake_gate st : frame st (wake_gate st).
+Proof. unfold wake_gate. destruct (s_pc st); repeat split. Qed.
+Lemma frame_maybe_wake_gate cfg st : frame st (maybe_wake_gate cfg st).
+Proof. unfold maybe_wake_gate. destruct (c_lazy cfg && can_fetch st); [apply frame_wake_gate|apply frame_refl]. Qed.
+Lemma frame_produce st : frame st (produce st).
+Proof. unfold produce. destruct (src st) as [|[num m] rest]; repeat split. Qed.
+Lemma frame_after_send cfg st c : frame st (after_send cfg st c).
+Proof.
+  unfold after_send. destruct c; [repeat split|]. destruct (c_lazy cfg); [repeat split|apply frame_produce].
+Qed.
+Lemma frame_send_raises st c r : frame st (send_raises st c r).
+Proof. unfold send_raises. destruct c; repeat split. Qed.
+Lemma frame_do_push cfg st k m c : frame st (do_push cfg st k m c).
+Proof.
+  unfold do_push. eapply frame_trans; [|apply frame_after_send].
+  eapply frame_trans; [|apply frame_wake_readers]. repeat split.
+Qed.
+
+Lemma frame_upd st st' i r r' :
+  nth_error (rds st) i = Some r -> r_drive r' = r_drive r -> rds st' = upd i r' (rds st) ->
+  k_pc st' = k_pc st -> w_done st' = w_done st -> killed st' = killed st -> frame st st'.
+Proof.
+  intros Hi Hd Er E1 E2 E3. repeat split; auto.
+  rewrite Er, upd_map, Hd. apply upd_same. rewrite nth_error_map, Hi. reflexivity.
+Qed.
+
+Lemma frame_grab cfg st i r n : nth_error (rds st) i = Some r -> frame st (grab cfg st i r n).
+Proof.
+  intros Hi. unfold grab. destruct (killed st) eqn:Ek.
+  - eapply (frame_upd st _ i r (rd_set_pc (rd_set_waiting r None) RRaised)); eauto; reflexivity.
+  - destruct (take_from (length (box st)) (box st) n) as [[ms n'] last].
+    set (r2 := rd_set_nread (rd_set_waiting r None) n').
+    set (st1 := set_rds st (upd i r2 (rds st))).
+    set (st2 := set_box st1 (gc (min_nread (rds st1)) (box st1))).
+    set (st3 := wake_writer (maybe_wake_gate cfg st2)).
+    assert (F12 : frame st st2).
+    { eapply (frame_upd st st2 i r r2); eauto; reflexivity. }
+    assert (F23 : frame st2 st3).
+    { eapply frame_trans; [apply (frame_maybe_wake_gate cfg)|apply frame_wake_writer]. }
+    assert (Hi3 : nth_error (rds st3) i = Some r2).
+    { unfold st3. rewrite rds_wake_writer, rds_maybe_wake_gate. cbn [rds st2 st1 set_box set_rds].
+      apply nth_error_upd_eq. apply nth_error_Some. congruence. }
+    eapply frame_trans; [exact F12|]. eapply frame_trans; [exact F23|].
+    destruct (deliver_fields (w_done st3) r2 ms n' last) as (_ & _ & Ed & _).
+    eapply (frame_upd st3 _ i r2); eauto; reflexivity.
+Qed.
+
+Lemma frame_kill_region st up :
+  k_pc (kill_region st up) = k_pc st /\ map r_drive (rds (kill_region st up)) = map r_drive (rds st) /\
+  w_done (kill_region st up) = w_done st.
+Proof.
+  assert (H : forall s, k_pc (wake_gate (wake_writer (wake_readers s))) = k_pc s /\
+                        map r_drive (rds (wake_gate (wake_writer (wake_readers s)))) = map r_drive (rds s) /\
+                        w_done (wake_gate (wake_writer (wake_readers s))) = w_done s).
+  { intros s.
+    destruct (frame_trans _ _ _ (frame_wake_readers s)
+               (frame_trans _ _ _ (frame_wake_writer _) (frame_wake_gate _))) as (A1 & A2 & A3 & _). auto. }
+  unfold kill_region. destruct up; simp_st; destruct (killed st); simp_st; auto.
+  - destruct (H (set_killed (set_fkilled st true) true)) as (A1 & A2 & A3). rewrite A1, A2, A3. auto.
+  - destruct (H (set_killed st true)) as (A1 & A2 & A3). rewrite A1, A2, A3. auto.
+Qed.
+
+Lemma step_frame cfg st t st' :
+  step cfg st t = Some st' ->
+  map r_drive (rds st') = map r_drive (rds st) /\
+  length (w_done st') = length (w_done st) /\
+  (t <> TK -> k_pc st' = k_pc st) /\
+  (killed st' = true -> killed st = true \/ t = TK \/ exists r, s_pc st = SKill r).
+Proof.
+  intros Hs. apply step_inv in Hs.
+  assert (Hfr : forall s s' (Q : Prop), frame s s' ->
+            map r_drive (rds s') = map r_drive (rds s) /\ length (w_done s') = length (w_done s) /\
+            (t <> TK -> k_pc s' = k_pc s) /\ (killed s' = true -> killed s = true \/ Q)).
+  { intros s s' Q (A1 & A2 & A3 & A4). rewrite A3, A4. auto. }
+  destruct t.
+  - destruct Hs as [_ ->]. unfold sender_step. destruct (s_pc st) eqn:Epc.
+    + apply Hfr. unfold gate_enter. destruct (can_fetch st); [apply frame_produce|repeat split].
+    + apply Hfr. unfold gate_resume. destruct (can_fetch st); [apply frame_produce|repeat split].
+    + apply Hfr. unfold send_enter.
+      destruct (closed st); [apply frame_send_raises|].
+      destruct (fkilled st); [apply frame_send_raises|].
+      destruct (killed st); [apply frame_after_send|].
+      destruct (_ <? _); [apply frame_send_raises|].
+      destruct (can_write cfg st); [apply frame_do_push|repeat split].
+    + apply Hfr. unfold send_resume. destruct (can_write cfg st); [|repeat split].
+      destruct (killed st); [|apply frame_do_push].
+      destruct (fkilled st); [apply frame_send_raises|apply frame_after_send].
+    + destruct (frame_kill_region st true) as (A1 & A2 & A3).
+      cbn [rds w_done k_pc killed set_spc]. rewrite A1, A2, A3. repeat split; auto.
+      intros _. right. right. eauto.
+    + apply Hfr. apply frame_refl.
+    + apply Hfr. apply frame_refl.
+  - destruct Hs as (r & Hi & _ & ->). apply Hfr. unfold reader_step. destruct (r_pc r).
+    + unfold read_enter. destruct (next_ready st n); [apply frame_grab; auto|].
+      eapply frame_trans; [|apply frame_maybe_wake_gate].
+      eapply (frame_upd st _ i r (rd_set_woken (rd_set_pc (rd_set_waiting r (Some n)) (RWait n)) false));
+        eauto; reflexivity.
+    + unfold read_resume. destruct (next_ready st n); [apply frame_grab; auto|].
+      eapply (frame_upd st _ i r (rd_set_woken r false)); eauto; reflexivity.
+    + destruct (deliver_fields (w_done st) (rd_log r v) rest n' last) as (_ & _ & Ed & _).
+      eapply (frame_upd st _ i r (deliver (w_done st) (rd_log r v) rest n' last)); eauto; reflexivity.
+    + apply frame_refl.
+    + apply frame_refl.
+  - destruct Hs as (up & _ & ->). destruct (frame_kill_region st up) as (A1 & A2 & A3).
+    cbn [rds w_done k_pc killed set_kpc]. rewrite A2, A3. repeat split; auto. congruence.
+  - destruct Hs as (d & _ & _ & ->). cbn [rds w_done k_pc killed set_wdone]. rewrite upd_length.
+    repeat split; auto.
+Qed.
